@@ -168,12 +168,26 @@ inductive LoopTrans where
   | ompParallelDo   -- DynamoOMPParallelLoopTrans
   | ompDo           -- Dynamo0p3OMPLoopTrans
   | accLoop         -- ACCLoopTrans
+  | genOmpDo        -- generic psyir OMPLoopTrans (no LFRic-specific validate, no "force")
+  | genOmpParallelDo -- generic OMPParallelLoopTrans
   deriving Repr, DecidableEq
 
 def LoopTrans.dirKind : LoopTrans → DirKind
   | .ompParallelDo => dOmpParallelDo
   | .ompDo => dOmpDo
   | .accLoop => dAccLoop
+  | .genOmpDo => dOmpDo
+  | .genOmpParallelDo => dOmpParallelDo
+
+/-- `excluded_node_types` contains HaloExchange (ParallelLoopTrans default; ACCLoopTrans overrides it) -/
+def LoopTrans.excludesHalo : LoopTrans → Bool
+  | .accLoop => false
+  | _ => true
+
+/-- the transformation does not pass "force" and therefore asks `LFRicLoop.independent_iterations` -/
+def LoopTrans.usesDA : LoopTrans → Bool
+  | .accLoop | .genOmpDo | .genOmpParallelDo => true
+  | _ => false
 
 inductive RegionTrans where
   | ompParallel | accParallel | accKernels
@@ -191,14 +205,17 @@ variable (T : Tables)
 `LoopTrans.validate`: target must be a Loop, may not contain excluded node types (halo exchanges for the two
 OpenMP ones), may not be a 'null' loop; `ParallelLoopTrans.validate`: may not be a loop over colours;
 then the LFRic rule: a loop that is not over a single colour and has an INC argument is refused
-(for ACCLoopTrans via `LFRicLoop.independent_iterations`, which also refuses dof loops with a reduction). -/
+(for ACCLoopTrans and the generic OMPLoopTrans / OMPParallelLoopTrans via `LFRicLoop.independent_iterations`, which also
+refuses dof loops with a reduction).  ASSUMPTION (checked by the harness on every case): for such loops the generic
+dependence analysis called first by `independent_iterations` answers False and does not raise - if it raised
+InternalError/KeyError the real code would answer "independent" without consulting `has_inc_arg`. -/
 def parLoopG (t : LoopTrans) (_ : Ctx) : Forest → Option Forest
   | loop ty fd b nx =>
     if ty == ltNull then none
     else if ty == ltColours then none
-    else if t != .accLoop && hasHalo b then none
+    else if t.excludesHalo && hasHalo b then none
     else if ty != ltColour && hasInc T b then none
-    else if t == .accLoop && ty == ltDof && hasReduction T b then none
+    else if t.usesDA && ty == ltDof && hasReduction T b then none
     else some (dir t.dirKind (loop ty fd b nil) nx)
   | _ => none
 
